@@ -3,6 +3,7 @@
 # checks (quick tier unless TIER=thorough), and always revert. Prints one line per check: CAUGHT / MISSED.
 export GOFLAGS=-mod=mod GOPROXY=off GOSUMDB=off GOTOOLCHAIN=local
 P=$(realpath "$1"); shift
+exec 9>/verif/.build/repo.lock; flock 9   # /repo is shared with tools/mutsweep.sh
 if ! git -C /repo diff --quiet; then echo "/repo is dirty"; exit 2; fi
 git -C /repo apply "$P" || { echo "patch does not apply"; exit 2; }
 trap 'git -C /repo checkout -- . ; git -C /repo clean -fdq' EXIT
